@@ -11,6 +11,8 @@ Recognition is spelling-independent: the functions are read through the forward 
 inside one loop iteration, is replaced by its definition; simple extracted helpers are looked through), variables are identified
 by their ROLE (loop variables of the enumerate(particles) loops, the `with h5py.File(...) as f` handle, the values read from the
 file's metadata, the parameters of the public methods) and arguments are bound by keyword or position.
+The evaluation points may be written without meshgrid: np.repeat(rz, len(rp)) over np.tile(rp, len(rz)) is the C-order flattened ij pair
+(`_Product`); the reverse pairing is the Fortran order and stays a violation.
 """
 from __future__ import annotations
 
@@ -476,9 +478,49 @@ def _reshape_parts(e: ast.AST):
     return None
 
 
+class _Product:
+    """The flattened pair of coordinate arrays of a product grid that is written without meshgrid: row 0 holds every element of `first` repeated
+    len(second) times in a block (np.repeat), row 1 holds `second` as a whole, len(first) times over (np.tile) -- element i * len(second) + j is
+    (first[i], second[j]), which is meshgrid(first, second, indexing='ij') flattened in C order.  One object per row: `kind` says how the row is
+    built ('repeat' / 'tile'), `array` which coordinate array it holds and `count` how often (an expression)."""
+
+    def __init__(self, kind: str, array: ast.AST, count: ast.AST):
+        self.kind, self.array, self.count = kind, array, count
+
+
+def _repeat_or_tile(e: ast.AST):
+    """_Product row of np.repeat(a, n) / a.repeat(n) (no axis: element-wise blocks of the flattened array) or np.tile(a, n) / np.tile(a, (n,))"""
+    if not isinstance(e, ast.Call):
+        return None
+    if _np_call(e, "repeat"):
+        a, cnt, ax = kwarg(e, "a", 0), kwarg(e, "repeats", 1), kwarg(e, "axis", 2)
+        if a is not None and cnt is not None and (ax is None or eqx(ax, "None") or eqx(ax, "0")) and len(e.args) + len(e.keywords) <= 3:
+            return _Product("repeat", a, cnt)
+        return None
+    if isinstance(e.func, ast.Attribute) and e.func.attr == "repeat" and not _np_call(e, "repeat") and dotted(e.func.value) not in ("np", "numpy", "itertools"):
+        cnt, ax = kwarg(e, "repeats", 0), kwarg(e, "axis", 1)
+        if cnt is not None and (ax is None or eqx(ax, "None") or eqx(ax, "0")) and len(e.args) + len(e.keywords) <= 2:
+            return _Product("repeat", e.func.value, cnt)
+        return None
+    if _np_call(e, "tile") and len(e.args) + len(e.keywords) == 2:
+        a, reps = kwarg(e, "A", 0), kwarg(e, "reps", 1)
+        if a is None or reps is None:
+            return None
+        if isinstance(reps, (ast.Tuple, ast.List)):
+            if len(reps.elts) != 1:
+                return None
+            reps = reps.elts[0]
+        return _Product("tile", a, reps)
+    return None
+
+
 def _grid_row(e: ast.AST):
-    """(meshgrid call, k, flattened, kept as 1 x n row) when e is component k of a meshgrid(...) result, possibly flattened in C order"""
+    """(meshgrid call, k, flattened, kept as 1 x n row) when e is component k of a meshgrid(...) result, possibly flattened in C order;
+    (_Product row, k, True, kept as 1 x n row) for the repeat / tile spelling of a flattened component (k: 0 for repeat, 1 for tile)"""
     e = _unwrap_array(e)
+    rt = _repeat_or_tile(e)
+    if rt is not None:
+        return rt, 0 if rt.kind == "repeat" else 1, True, False
     if isinstance(e, ast.Subscript) and isinstance(e.slice, ast.Constant) and isinstance(e.slice.value, int) and not isinstance(e.slice.value, bool):
         m = _unwrap_array(e.value)
         if isinstance(m, ast.Call) and _short(m) == "meshgrid" and e.slice.value in (0, 1):
@@ -537,9 +579,35 @@ def _grid_rows(e: ast.AST):
     return None
 
 
+def _length_of(e: ast.AST, P_GRID: str, attr: str) -> bool:
+    """e is the number of points of the target grid's coordinate array `attr` (rzValues / rpValues: N - 1 points each)"""
+    a = f"{P_GRID}.{attr}"
+    return any(eqx(e, t) for t in (f"{P_GRID}.N - 1", f"len({a})", f"{a}.size", f"{a}.shape[0]"))
+
+
+def _product_row(r, k: int, P_GRID: str) -> bool:
+    """row k of the points array is the flattened component k of the (rz, rp) product grid in C order, written without meshgrid:
+    np.repeat(rz, len(rp)) for k = 0, np.tile(rp, len(rz)) for k = 1"""
+    p, kk, flat, as_row = r
+    if not isinstance(p, _Product) or kk != k or not flat or as_row:
+        return False
+    if k == 0:
+        return p.kind == "repeat" and eqx(p.array, f"{P_GRID}.rzValues") and _length_of(p.count, P_GRID, "rpValues")
+    return p.kind == "tile" and eqx(p.array, f"{P_GRID}.rpValues") and _length_of(p.count, P_GRID, "rzValues")
+
+
+def _product_grid(gp: ast.AST, P_GRID: str) -> bool:
+    """gp is the (2, n) array [np.repeat(rz, len(rp)), np.tile(rp, len(rz))]: the C-order flattened ij-meshgrid pair without meshgrid.  The reverse
+    pairing (tile of rz, repeat of rp) enumerates the points in Fortran order and is not accepted."""
+    rows = _grid_rows(gp)
+    return rows is not None and len(rows) == 2 and _product_row(rows[0], 0, P_GRID) and _product_row(rows[1], 1, P_GRID)
+
+
 def _points_grid(gp: ast.AST, P_GRID: str) -> bool:
     """gp is meshgrid(rz, rp, indexing='ij') with each of the two components flattened in C order, rz component first"""
     mg = {nf(c): c for c in ast.walk(gp) if isinstance(c, ast.Call) and _short(c) == "meshgrid"}
+    if not mg:
+        return _product_grid(gp, P_GRID)
     if len(mg) != 1:
         return False
     (m,) = mg.values()
@@ -549,7 +617,8 @@ def _points_grid(gp: ast.AST, P_GRID: str) -> bool:
         return False
     rows = _grid_rows(gp)
     if rows is not None:
-        return [r[1:] for r in rows] == [(0, True, False), (1, True, False)]
+        # a row may also be written without meshgrid (np.repeat / np.tile): it must then be that same component
+        return [r[1:] for r in rows] == [(0, True, False), (1, True, False)] and all(not isinstance(r[0], _Product) or _product_row(r, k, P_GRID) for k, r in enumerate(rows))
     # a construction that is not decoded: the (single) meshgrid result is used as a whole
     occurrences = [c for c in ast.walk(gp) if isinstance(c, ast.Call) and _short(c) == "meshgrid"]
     picked = [x for x in ast.walk(gp) if isinstance(x, ast.Subscript) and isinstance(_unwrap_array(x.value), ast.Call) and _short(_unwrap_array(x.value)) == "meshgrid"]
